@@ -142,6 +142,8 @@ def name_components(nodes, links):
         top = cnt.most_common(2)
         if len(top) > 1 and top[0][1] == top[1][1]:
             return None
+        if top[0][0] in named:
+            return None  # two components with the same majority contig: a chromosome name no longer names one component
         named[top[0][0]] = comp
     return named
 
